@@ -125,8 +125,10 @@ def r1(ctx):
     if not ctx.require("C02.R1", se, "signing call (.sign) in HandshakeServerHelloMessage.serialize", len(signs), 1):
         return
     s = signs[0]
-    ctx.check(norm(s.func.value) == "kwargs['server_root_key']", "C02.R1", se, "signer is the server root key", "hello is signed with the root key",
-              witness=norm(s.func.value), line=s.lineno)
+    from .common import sym_text
+    signer = sym_text(se, s.func.value, cfg_of(se).node_of(s))
+    ctx.check(signer == "kwargs['server_root_key']", "C02.R1", se, "signer is the server root key", "hello is signed with the root key",
+              witness=signer, line=s.lineno)
     signed = resolve_arg(se, s.args[0], s) if s.args else None
     temp = None
     if isinstance(signed, ast.Call) and norm(signed.func).endswith(".getvalue") and isinstance(signed.func.value, ast.Name):
